@@ -610,7 +610,9 @@ def install_wrappers(reg):
         reg.add(Contract(
             qual, params=[("sd", SD)] + params, defaults=defaults, result_type=TBool, trusted=True, properties=props,
             modifies={"sd": ALLF + ["tok"]},
-            ensures=[("abstract_outcome", lambda c: z3.And(c.sd.tok == F_tok(*args(c, "sd")), c.result == F_res(*args(c, "sd"))))],
+            ensures=[("abstract_outcome", lambda c: z3.And(c.sd.tok == F_tok(*args(c, "sd")), c.result == F_res(*args(c, "sd")))),
+                     ("invariant_assumed", lambda c: S.inv_all(c.sd)),
+                     ("configuration_kept", lambda c: z3.And(*[getattr(c.sd, "cfg_" + k) == getattr(c.old.sd, "cfg_" + k) for k in M.CONFIG_KEYS]))],
             may_raise={"RuntimeError": {"modifies": {"sd": ALLF + ["tok"]}}},
             note=note))
         return F_tok, F_res, code
@@ -635,9 +637,19 @@ def install_wrappers(reg):
             "biobalm.succession_diagram.SuccessionDiagram." + method, params=[("self", SD)] + mparams, defaults=mdefaults, result_type=TBool,
             properties=props, modifies={"self": ALLF + ["tok"]},
             ensures=[("is_the_drivers_outcome_for_the_callers_arguments", lambda c: z3.And(
-                c.self.tok == F_tok(*expected(c)), c.result == F_res(*expected(c))))],
+                c.self.tok == F_tok(*expected(c)), c.result == F_res(*expected(c)))),
+                     ("invariant_assumed_of_the_driver", lambda c: S.inv_all(c.self)),
+                     ("configuration_kept", lambda c: z3.And(*[getattr(c.self, "cfg_" + k) == getattr(c.old.self, "cfg_" + k) for k in M.CONFIG_KEYS]))],
             raises={"RuntimeError": []}, may_raise={"RuntimeError": {"modifies": {"self": ALLF + ["tok"]}}},
             note=f"delegation to {qual.split('.')[-1]} (abstract outcome): arguments are passed on unchanged, in the documented positions"), method_of="SD")
+
+    _TOK = {}
+    _orig_abstract = abstract_driver
+
+    def abstract_driver(qual, params, defaults, props, note):        # noqa: F811  (remember the outcome functions for build())
+        r = _orig_abstract(qual, params, defaults, props, note)
+        _TOK[qual.split(".")[-1]] = r
+        return r
 
     delegate("expand_block", "biobalm._sd_algorithms.expand_source_blocks.expand_source_blocks",
              [("find_motif_avoidant_attractors", TBool), ("size_limit", OI), ("optimize_source_nodes", TBool), ("exact_attractor_detection", TBool)],
@@ -657,3 +669,36 @@ def install_wrappers(reg):
              [("size_limit", OI)], {"size_limit": None}, {"size_limit": "size_limit"}, ("C03", "C01", "C15"),
              [("size_limit", OI)], {"size_limit": None},
              "ASSUMED abstract outcome (attractor-seed expansion is decided by the bounded stand-in only)")
+
+
+    # ---- build(): block expansion with default arguments, then seeds for the expanded nodes only
+    from .attractors import structure_unchanged
+    OptLS = M.OptLS
+    F_tok, F_res, _ = _TOK["expand_source_blocks"]
+    i_ = z3.Int("i!bd")
+
+    def build_inv(c):
+        v, e = c.self, c.at_entry(0).self
+        return [("inv." + nm, g) for nm, g in S.inv(v)] + [
+            ("only_caches_change", z3.And(structure_unchanged(v, e, attractor_fields_of=None) if False else z3.And(
+                v.K == e.K, v.index == e.index, S.frame_edges(v, e), v.net == e.net, v.sym == e.sym, v.pn == e.pn, v.tok == e.tok,
+                S.frame_nodes(v, e, fields=("space", "expanded", "skipped", "parent", "succsig", "depth"))))),
+            ("stubs_are_left_alone", z3.ForAll([i_], z3.Implies(z3.And(S.valid(e, i_), z3.Not(e.expanded[i_])), z3.And(
+                v.cand[i_] == e.cand[i_], v.seeds[i_] == e.seeds[i_], v.sets[i_] == e.sets[i_])))),
+            ("seeds_of_the_visited_nodes_are_known", z3.ForAll([a], z3.Implies(z3.And(0 <= a, a < c.i), z3.Not(OptLS.is_none(v.seeds[LI.at(c.coll)[a]]))))),
+            ("known_seeds_are_kept", z3.ForAll([i_], z3.Implies(z3.And(S.valid(e, i_), z3.Not(OptLS.is_none(e.seeds[i_]))), v.seeds[i_] == e.seeds[i_]))),
+            ("configuration_kept", z3.And(*[getattr(v, "cfg_" + k) == getattr(e, "cfg_" + k) for k in M.CONFIG_KEYS])),
+        ]
+
+    reg.add(Contract(
+        "biobalm.succession_diagram.SuccessionDiagram.build", params=[("self", SD)], properties=("C20", "C01", "C14", "C18"),
+        requires=[lambda c: z3.And(c.self.cfg_attractor_candidates_limit >= 0, c.self.cfg_minimum_simulation_budget >= 0)],
+        modifies={"self": ALLF + ["tok"]},
+        ensures=[("block_expansion_with_default_arguments", lambda c: c.self.tok == F_tok(c.old.self.tok, 1, -1, 1, 0)),
+                 ("seeds_known_for_every_expanded_node", lambda c: z3.ForAll([i_], z3.Implies(
+                     z3.And(S.valid(c.self, i_), c.self.expanded[i_]), z3.Not(OptLS.is_none(c.self.seeds[i_])))))] +
+                [("inv." + nm, (lambda k: (lambda c: dict(S.inv(c.self))[k]))(nm)) for nm in inv_names()],
+        raises={"RuntimeError": []}, may_raise={"RuntimeError": {"modifies": {"self": ALLF + ["tok"]}}},
+        loops={0: LoopContract("for node_id in self.expanded_ids()", build_inv, havoc_heap={"self": ["cand", "seeds", "sets", "ppn", "pbn", "pnfvs"]})},
+        note="expand_block() (abstract outcome, invariant assumed of the driver) followed by node_attractor_seeds for exactly the expanded nodes; "
+             "attractor data of stubs is not touched"), method_of="SD")
